@@ -7,6 +7,7 @@ import NavisModel.Gen.InputWrites
 import NavisModel.Gen.CopySpec
 import NavisModel.Proofs.HeapParLemmas
 import NavisModel.Gen.ParSpec
+import NavisModel.Proofs.HeapHistLemmas
 /-!
 # C03 — inputs are never modified unless `inplace=True`; inplace is equivalent
 
@@ -548,5 +549,116 @@ example : Navis.InputWrites.allowed ("morpho/mmetrics.py:strahler_index", "col",
 example : extendsB s0 (mapListPar [.wr .nodes bump] s0 0 false true true true).1 = true := by decide
 example : extendsB s0 (mapListPar [.wr .nodes bump] s0 0 false true true false).1 = false ∧
     (mapListPar [.wr .nodes bump] s0 0 false true true false).1.lst 1 = [0] := by decide
+
+/-! ## 9. histories: `x = f₁(x, inplace=i₁); x = f₂(x, inplace=i₂); …` with the flags chosen arbitrarily -/
+
+/-- **history_value.**  For every history (any bodies, any choice of `inplace` per step) on a separated receiver, the observable
+state of the value that comes out is the address-free run of the bodies on the input's state: the flags play no role. -/
+theorem history_value (h : List (List Stmt × Bool)) (s : Store) (x : Ref) (hx : Sep s x) :
+    (runHist h (s, x)).1.abs (runHist h (s, x)).2 = ahist (s.abs x) h ∧ Sep (runHist h (s, x)).1 (runHist h (s, x)).2 :=
+  ⟨(runHist_abs h (s, x) hx).2, (runHist_abs h (s, x) hx).1⟩
+
+/-- **history_flags_irrelevant.**  Two histories that apply the same bodies in the same order — with `inplace` chosen in any
+two ways, step by step — end in the same observable value. -/
+theorem history_flags_irrelevant (h h' : List (List Stmt × Bool)) (s : Store) (x : Ref) (hx : Sep s x)
+    (hb : h.map (·.1) = h'.map (·.1)) :
+    (runHist h (s, x)).1.abs (runHist h (s, x)).2 = (runHist h' (s, x)).1.abs (runHist h' (s, x)).2 := by
+  rw [(history_value h s x hx).1, (history_value h' s x hx).1, ahist_bodies, ahist_bodies, hb]
+
+/-- **history_noninplace_inputs_untouched.**  In any history, the input of every step taken WITHOUT `inplace` — the store as it
+was when that step started, hence the object passed to it and all its tables — is unchanged at the end of the history, whatever
+flags the later steps use (each body respecting `writesOwn`: thaw / re-bind / clear before an in-place graph edit). -/
+theorem history_noninplace_inputs_untouched (pre post : List (List Stmt × Bool)) (b : List Stmt) (s : Store) (x : Ref)
+    (hb : writesOwn true b = true) (hw : ∀ op ∈ post, writesOwn true op.1 = true) :
+    Ext (runHist pre (s, x)).1 (runHist (pre ++ (b, false) :: post) (s, x)).1 := by
+  rw [runHist_append]
+  exact runHist_frame_after_copy b post _ hb hw
+
+/-- … in particular a history that starts with a non-inplace step never touches the caller's original object. -/
+theorem history_frame (b : List Stmt) (post : List (List Stmt × Bool)) (s : Store) (x : Ref)
+    (hb : writesOwn true b = true) (hw : ∀ op ∈ post, writesOwn true op.1 = true) (hx : Sep s x) :
+    Ext s (runHist ((b, false) :: post) (s, x)).1 ∧ (runHist ((b, false) :: post) (s, x)).1.abs x = s.abs x := by
+  have he := runHist_frame_after_copy b post (s, x) hb hw
+  exact ⟨he, (Sep.of_ext he hx).2⟩
+
+/-- **history_identity.**  All steps in place: the very object passed in comes out.  At least one step not in place: the object
+that comes out was allocated during the history — it is none of the objects that existed before, in particular not the input. -/
+theorem history_identity (h : List (List Stmt × Bool)) (s : Store) (x : Ref) :
+    ((∀ op ∈ h, op.2 = true) → (runHist h (s, x)).2 = x) ∧
+    ((∃ op ∈ h, op.2 = false) → s.objs.length ≤ (runHist h (s, x)).2 ∧ (x < s.objs.length → (runHist h (s, x)).2 ≠ x)) := by
+  refine ⟨fun hall => runHist_all_inplace h (s, x) hall, fun hex => ?_⟩
+  have := runHist_fresh s.objs.length h (s, x) (Nat.le_refl _) (.inr hex)
+  exact ⟨this, fun hx => Nat.ne_of_gt (Nat.lt_of_lt_of_le hx this)⟩
+
+/-- **maplist_inplace_equiv.**  NeuronList level: for a list of pairwise disjoint, separated members, member `i` of the list
+after `f(nl, inplace=True)` is in the state of member `i` of the list returned by `f(nl)` (and both are the body run on the
+member's initial state). -/
+theorem maplist_inplace_equiv (b : List Stmt) (s : Store) (l : Ref) (hw : writesOwn true b = true)
+    (hs : ∀ x ∈ s.lst l, Sep s x) (hd : (s.lst l).Pairwise (Disj s)) :
+    ∀ (i : Nat) (x : Nat), (s.lst l)[i]? = some x →
+      ∃ y, ((mapList b s l false).1.lst (mapList b s l false).2)[i]? = some y ∧
+        (mapList b s l false).1.abs y = (mapList b s l true).1.abs x := by
+  intro i x hi
+  have hxm : x ∈ s.lst l := List.mem_of_getElem? hi
+  obtain ⟨_, _, _, h4⟩ := maplist_noninplace b s l hw
+  obtain ⟨y, hy, _, hy3⟩ := h4 i x hi (hs x hxm)
+  exact ⟨y, hy, by rw [hy3, maplist_inplace_members b s l hs hd x hxm]⟩
+
+/-- **parallel_job_equiv_serial.**  One job of a parallel call with the decorator's forced `inplace=True`, run in a worker on a
+pickled copy (no graphs), ends in the state the serial non-inplace call produces — for every body that (like all navis bodies,
+through `_clear_temp_attr`) starts by dropping the cached graphs. -/
+theorem parallel_job_equiv_serial (b : List Stmt) (s : Store) (x : Ref) (hx : Sep s x) :
+    let b' := Stmt.clear .graph :: Stmt.clear .igraph :: b
+    (runJob b' s x true true).1.abs (runJob b' s x true true).2 =
+      (runJob b' s x false false).1.abs (runJob b' s x false false).2 := by
+  intro b'
+  have e1 : runJob b' s x true true = call b' s x false true := by simp [runJob, call]
+  have e2 : runJob b' s x false false = call b' s x false false := by simp [runJob]
+  rw [e1, e2, (call_abs_copy b' hx true).2, (call_abs_copy b' hx false).2]
+  simp only [if_true, Bool.false_eq_true, if_false, b', aexec, List.foldl_cons, astep]
+  congr 1
+
+/-- `inplace=True` on a parallel call hands back the same list object (its members are what the jobs returned). -/
+theorem parallel_inplace_same_list (b : List Stmt) (s : Store) (l : Ref) (par forced pooled : Bool) :
+    (mapListPar b s l true par forced pooled).2 = l := rfl
+
+/-- the frame checker of the two-level model is exact -/
+theorem deep_frameB_sound (s t : Navis.HeapDeep.Store) :
+    Navis.HeapDeep.frameB s t = true ↔ t.take s.length = s := by
+  unfold Navis.HeapDeep.frameB
+  constructor
+  · intro h
+    simp only [Bool.and_eq_true, beq_iff_eq] at h
+    exact h.2
+  · intro h
+    have hl : s.length ≤ t.length := by
+      have := congrArg List.length h
+      rw [List.length_take] at this
+      omega
+    simp [hl, h]
+
+/-- **list_ops_history_frame.**  Any sequence of NeuronList operators `+ - & |` (with neurons, members or not, or with lists),
+each applied to the result of the previous one, leaves the old store — the receiver's own list and every intermediate list that
+already existed — unchanged; a non-empty sequence ends in a list object that did not exist before. -/
+theorem list_ops_history_frame (ops : List ListOp) (s : Store) (l : Ref) :
+    Ext s (runListOps ops (s, l)).1 ∧
+    (ops ≠ [] → s.lists.length ≤ (runListOps ops (s, l)).2 ∧ (l < s.lists.length → (runListOps ops (s, l)).2 ≠ l)) := by
+  refine ⟨runListOps_ext ops (s, l), fun hne => ?_⟩
+  have := runListOps_fresh s.lists.length ops (s, l) (Nat.le_refl _) (.inr hne)
+  exact ⟨this, fun hl => Nat.ne_of_gt (Nat.lt_of_lt_of_le hl this)⟩
+
+/-- non-vacuity: a three-step history on the skeleton `s0` with mixed flags; flags do not matter, the first copy protects `s0` -/
+example : (runHist [(rerootNx bump bump, false), ([.wr .nodes bump], true), ([.wr .conns bump], false)] (s0, 0)).1.abs
+      (runHist [(rerootNx bump bump, false), ([.wr .nodes bump], true), ([.wr .conns bump], false)] (s0, 0)).2 =
+    (runHist [(rerootNx bump bump, true), ([.wr .nodes bump], true), ([.wr .conns bump], true)] (s0, 0)).1.abs 0 := by decide
+example : extendsB s0 (runHist [(rerootNx bump bump, false), ([.wr .nodes bump], true), ([.thaw, .wr .graph bump], true)] (s0, 0)).1
+    = true := by decide
+/-- … and the hypothesis is needed: an in-place graph edit of the result WITHOUT a thaw reaches the original through the view -/
+example : extendsB s0 (runHist [([], false), ([.wr .graph bump], true)] (s0, 0)).1 = false := by decide
+example : (runHist [([.wr .nodes bump], true), ([.wr .nodes bump], true)] (s0, 0)).2 = 0 ∧
+    (runHist [([.wr .nodes bump], true), ([.wr .nodes bump], false)] (s0, 0)).2 = 1 := by decide
+
+example : let r := runListOps [.add 5, .orOne 6 false, .filter (· != 0)] (s0, 0)
+    r.1.lst 0 = [0] ∧ r.1.lst r.2 = [5, 6] ∧ r.2 = 3 := by decide
 
 end Navis.Props.C03
